@@ -236,7 +236,7 @@ def cmd_check(prop, tier, seed, budget_s=None, workers=None, max_runs=None):
     groups = {}  # viol key -> (index, viol json, replay)
     samples = []
     first_i, last_i = None, None
-    for d in core.pool_run(fn, range(n_runs), workers, cfg["slice"], deadline, per_run_timeout=cfg.get("run_timeout", 60)):
+    for d in core.pool_run(fn, range(n_runs), workers, cfg["slice"], deadline, per_run_timeout=cfg.get("run_timeout", 180)):
         if d.get("error"):
             agg["errors"].append((d.get("i"), d["error"]))
             continue
